@@ -415,6 +415,13 @@ def gen_shape_program(rng, kind=None):
              "chops": [["chop", 0, {"count": n}], ["chop", 1, {"count": n + 1}], ["chop", 2, {"count": n + 2}]],
              "calls": [["set_patch", ["top", "left"], "walls"], ["project_side", "bottom", "terrain", True, True]], "copy": None}
         ents.append(e)
+    for e in ents:
+        if rng.random() < 0.4:
+            e["after_add"] = [["translate", [rng.choice([-3.0, 2.0, 7.0]), rng.choice([0.0, 1.0]), rng.choice([0.0, -2.0])]]]
+            if rng.random() < 0.5:
+                e["after_add"].append(["scale", rng.choice([2.0, 0.5])])
+            if rng.random() < 0.3:
+                e["after_add"].append(["rotate", 0.5, [1.0, 2.0, 2.0], [0.0, 0.0, 0.0]])
     prog = {"entities": ents, "merged": [], "default": None, "modify_pre": [], "modify_post": [], "geometry": [],
             "settings": [], "deleted": [], "debug": rng.random() < 0.5}
     if rng.random() < 0.5:
@@ -562,6 +569,16 @@ def run_program(prog, work):
             mesh.settings[k] = v
         for ent in ents:
             mesh.add(ent)
+        # entities are processed lazily: what is written is the entity as it is when the mesh is assembled, also when
+        # it was moved or resized after mesh.add()
+        for ei, e in enumerate(prog["entities"]):
+            for t in e.get("after_add") or []:
+                if t[0] == "translate":
+                    ents[ei].translate(t[1])
+                elif t[0] == "scale":
+                    ents[ei].scale(t[1])
+                elif t[0] == "rotate":
+                    ents[ei].rotate(t[1], t[2], t[3])
         for (ei, oi) in prog["deleted"]:
             mesh.delete(entity_ops(ents[ei])[oi])
         deleted = {(ei, oi) for (ei, oi) in prog["deleted"]}
